@@ -336,3 +336,76 @@ def funcs_in_class(cls: ast.ClassDef):
                 rec(ch, prefix)
     rec(cls, cls.name + ".")
     return out
+
+
+# ---- sections / shared state -----------------------------------------------------------------------
+
+class State:
+    """Values handed from one rule group to the next; a value that an earlier (failed) group did not
+    produce reads as None and ``dep`` turns its use into an AnalysisError of the *dependent* group only."""
+
+    def __getattr__(self, name):
+        return None
+
+
+def dep(value, what: str):
+    if value is None:
+        raise AnalysisError(f"depends on an unreadable earlier group: {what}")
+    return value
+
+
+def run_sections(ctx, sections):
+    """sections: [(name, fn(ctx, S))]; each runs inside ``ctx.section(name)`` (when the engine offers it)."""
+    S = State()
+    for name, fn in sections:
+        if hasattr(ctx, "section"):
+            with ctx.section(name):
+                fn(ctx, S)
+        else:
+            fn(ctx, S)
+    return S
+
+
+# ---- "the body is entered on every call" -----------------------------------------------------------
+
+_TRANSPARENT = {"overload", "typing.overload", "abstractmethod", "abc.abstractmethod", "staticmethod", "classmethod", "final", "typing.final"}
+
+
+def body_always_entered(ctx, rel: str, quals: Iterable[str], rule: str, modprefix: str, why: str, allow: Iterable[str] = ()) -> None:
+    """Every rule of a property reasons about the *body* of its anchor functions (dominance, must-pass).
+    That reasoning is void if a call can be answered without entering the body: a decorator that may
+    short-circuit (functools.lru_cache / cache / cached_property / any unknown wrapper), a second
+    definition of the same name, or a later rebinding ``name = wrapper(name)`` in the class / module.
+    One obligation per anchor."""
+    mod = ctx.mod(rel)
+    allow = set(allow) | _TRANSPARENT
+    for qual in quals:
+        defs_ = [d for d in mod.find_all(qual) if isinstance(d, (ast.FunctionDef, ast.AsyncFunctionDef))]
+        if not defs_:
+            raise AnalysisError(f"anchor vanished: function {rel}:{qual}")
+        where = f"{modprefix}.{qual}"
+        real = [d for d in defs_ if not any((dotted(x.func if isinstance(x, ast.Call) else x) or "") in ("overload", "typing.overload") for x in d.decorator_list)]
+        bad = []
+        for d in real:
+            for x in d.decorator_list:
+                nm = dotted(x.func if isinstance(x, ast.Call) else x) or src(x)
+                if nm not in allow:
+                    bad.append("@" + src(x))
+        name = qual.split(".")[-1]
+        owner = getattr(real[0], "_parent", None) if real else None
+        rebound = []
+        if owner is not None:
+            for st in getattr(owner, "body", []):
+                tg = st.targets if isinstance(st, ast.Assign) else ([st.target] if isinstance(st, (ast.AnnAssign, ast.AugAssign)) else [])
+                if any(isinstance(t, ast.Name) and t.id == name for t in tg):
+                    rebound.append(src(st))
+        if isinstance(owner, ast.ClassDef):
+            for st in ast.walk(mod.tree):
+                if isinstance(st, ast.Assign) and any(isinstance(t, ast.Attribute) and t.attr == name and dotted(t.value) == owner.name for t in st.targets):
+                    rebound.append(src(st))
+                if isinstance(st, ast.Call) and dotted(st.func) == "setattr" and len(st.args) >= 2 and dotted(st.args[0]) == owner.name \
+                        and isinstance(st.args[1], ast.Constant) and st.args[1].value == name:
+                    rebound.append(src(st))
+        problems = bad + (["defined %d times" % len(real)] if len(real) > 1 else []) + ["rebound: " + r for r in rebound]
+        ctx.check(not problems, rule, where,
+                  f"{name} can return without executing its body ({'; '.join(problems)}): {why}")
